@@ -85,6 +85,18 @@ def gen_case(rng):
     inp = gen.make_input(rng, "t.txt", "text", times, leads, locs, has=has, thresholds=thresholds, quantiles=quantiles,
                          members=members, others=others, miss=rng.choice([0.0, 0.1, 0.3]), sparse=sparse, variable=var,
                          consistent_cdf=False)
+    # genuine numbers at or below the missing marker (-1000, -9999, a sea-floor elevation) are data, not missing
+    if rng.random() < 0.3:
+        for c in inp["cells"].values():
+            for f in ("obs", "fcst"):
+                if c.get(f) is not None and rng.random() < 0.2:
+                    c[f] = rng.choice([-1000.0, -1500.25, -9999.0, -999.5, -998.75])
+            if c.get("o"):
+                for n in c["o"]:
+                    if c["o"][n] is not None and rng.random() < 0.2:
+                        c["o"][n] = rng.choice([-1000.0, -9999.0])
+        if st["has_elev"] and rng.random() < 0.5:
+            inp["locs"][0][3] = -1200.0
     inp["style"] = st
     ccls = rng.choice(["none", "text", "bare", "nospace"])
     return {"inp": inp, "comment_class": ccls, "sparse": sparse}
